@@ -388,9 +388,22 @@ func VHReplacement() {
 		return "/]"
 	}
 	tail := "z[b]" + x + u + "[/b]."
+	// optionally a second replacement marker in its open form later on the same line (the remainder of the
+	// line after the first one is then what a second scan starts from)
+	tailText := "z" + x + u + "."
+	switch vChoose("second", 3) {
+	case 1:
+		tail += "[nomarkup][" + x + "] [/nomarkup]!"
+		tailText += "[" + x + "] !"
+		vReach("second-nomarkup")
+	case 2:
+		tail += "[select value=m m=\"" + u + x + "\"][/select]!"
+		tailText += u + x + "!"
+		vReach("second-select")
+	}
 	// checkTail: the text is want+tail's plain text and the attribute b encloses exactly x+u
 	checkTail := func(res *ParseResult, want string, what string) {
-		vAssert(res.Text == want+"z"+x+u+".", what)
+		vAssert(res.Text == want+tailText, what)
 		b, ok := res.Attribute("b")
 		vAssert(ok, "the marker after a replacement marker yields its attribute")
 		if ok {
@@ -457,4 +470,58 @@ func VHReplacement() {
 			vReach("nomarkup")
 		}
 	}
+}
+
+// VHEdgeWhitespace: the returned text is trimmed; attributes are expressed relative to the trimmed text and
+// delimit the part of their enclosed text that is still there (leading whitespace shifts them, trailing
+// whitespace inside a marker is cut off), whatever the combination of leading / inner / trailing whitespace.
+func VHEdgeWhitespace() {
+	lp := LineParser{}
+	c1, c2, c3 := vByte("c1"), vByte("c2"), vByte("c3")
+	vAssume(vAnd(vPlainASCII(c1), vAnd(vPlainASCII(c2), vPlainASCII(c3))))
+	ub := vByte("u")
+	vAssume(vAnd(ub >= 0xa1, ub <= 0xbf))
+	sp := func(n int) string { return "   "[:n] }
+	L, S, T := vChoose("lead", 3), vChoose("inner", 3), vChoose("trail", 3)
+	x1, x2, x3 := string([]byte{c1}), string([]byte{0xc3, ub, c2}), string([]byte{c3})
+	switch vChoose("shape", 4) {
+	case 0: // L x1 [a] x2 S [/a] T : the marker's trailing whitespace is trimmed away
+		res, err := lp.ParseMarkup(sp(L) + x1 + "[a]" + x2 + sp(S) + "[/a]" + sp(T))
+		vAssert(err == nil, "edge whitespace parses (0)")
+		if err == nil {
+			vAssert(res.Text == x1+x2, "the text is trimmed (0)")
+			a, ok := res.Attribute("a")
+			vAssert(ok && a.Position == 1 && a.Length == 2, "the attribute delimits the enclosed text that remains (0)")
+			vAssert(ok && res.TextForAttribute(a) == x2, "TextForAttribute returns the enclosed text that remains (0)")
+		}
+	case 1: // L x1 [a] x2 S [/a] x3 T : inner whitespace is kept
+		res, err := lp.ParseMarkup(sp(L) + x1 + "[a]" + x2 + sp(S) + "[/a]" + x3 + sp(T))
+		vAssert(err == nil, "edge whitespace parses (1)")
+		if err == nil {
+			vAssert(res.Text == x1+x2+sp(S)+x3, "the text is trimmed (1)")
+			a, ok := res.Attribute("a")
+			vAssert(ok && a.Position == 1 && a.Length == 2+S, "the attribute delimits the enclosed text (1)")
+			vAssert(ok && res.TextForAttribute(a) == x2+sp(S), "TextForAttribute returns the enclosed text (1)")
+		}
+	case 2: // L [a] S x2 [/] T x... close-all, whitespace at the start of the enclosed text
+		res, err := lp.ParseMarkup(sp(L) + "[a]" + sp(S) + x2 + "[/]" + sp(T))
+		vAssert(err == nil, "edge whitespace parses (2)")
+		if err == nil {
+			vAssert(res.Text == x2, "the text is trimmed (2)")
+			a, ok := res.Attribute("a")
+			vAssert(ok && a.Position == 0 && a.Length == 2, "the attribute delimits the enclosed text that remains (2)")
+			vAssert(ok && res.TextForAttribute(a) == x2, "TextForAttribute returns the enclosed text that remains (2)")
+		}
+	case 3: // x1 x2 S [a] T [/a] : a marker enclosing only trailing whitespace is empty and sits at the end
+		vAssume(L == 0)
+		res, err := lp.ParseMarkup(x1 + x2 + sp(S) + "[a]" + sp(T) + "[/a]")
+		vAssert(err == nil, "edge whitespace parses (3)")
+		if err == nil {
+			vAssert(res.Text == x1+x2, "the text is trimmed (3)")
+			a, ok := res.Attribute("a")
+			vAssert(ok && a.Position+a.Length <= 3 && a.Length == 0, "an attribute enclosing only trimmed whitespace is empty and inside the text (3)")
+			vAssert(ok && res.TextForAttribute(a) == "", "TextForAttribute of it is empty (3)")
+		}
+	}
+	vReach("edge")
 }
